@@ -50,7 +50,8 @@ SegClass(cfg, seg) ==
       to == PInt(seg.to)
   IN IF cfg.masked /\ from >= MaskFrom /\ to <= MaskTo THEN {"zero"}
      ELSE IF cfg.clear /\ cfg.decrypting /\ to <= HeaderBytes(cfg.regions) THEN {"zero"}
-     ELSE IF cfg.decrypting /\ Encrypted(cfg.regions, seg.sector) THEN {"dec:" \o cfg.key}
+     \* (a sector the image ends in - malformed image, not a multiple of 2048 - cannot be decrypted: served as stored)
+     ELSE IF cfg.decrypting /\ Encrypted(cfg.regions, seg.sector) /\ seg.whole THEN {"dec:" \o cfg.key}
      ELSE {"raw"}
 
 (* a segment straddling one of the special boundaries cannot be classified:  *)
